@@ -13,6 +13,9 @@ ev     = ["act", engine, conn_id|null, cfg]      sqlframe.activate(engine, conn,
                                                   form S: `import path as m`             (statement)
                                                   form B: `from parent import child`     (statement)
          ["loadf", engine]                        import sqlframe.<engine>.functions  (what DataFrame operations do lazily)
+         ["bconf", "key", {k: v}]                 from pyspark.sql import SparkSession; SparkSession.builder.config(k, v)
+         ["bconf", "map", {k: v, ...}]            ... SparkSession.builder.config(map={...})   (only when sqlframe is active)
+         ["dial"]                                 [input, output, execution] dialect names of the session the last ["goc"] returned
          ["names", engine]                        identity of every documented class under pyspark.sql.* vs sqlframe.<engine>.*
 cfg    = {} | {"sqlframe.input.dialect": "<dialect>"}
 conn ids: 1, 2 = well-behaved stub connections; 9 = a connection whose every use raises RuntimeError.
@@ -56,7 +59,12 @@ class Conn:
             raise RuntimeError("c20: connection refuses to be used")
         if name == "converter":      # snowflake: falsy converter -> the session only records its converter class
             return None
-        return lambda *a, **k: self
+        return self                  # conn.cursor(), conn._client.default_query_job_config, ... : the stub itself
+
+    def __call__(self, *a, **k):
+        if object.__getattribute__(self, "_bad"):
+            raise RuntimeError("c20: connection refuses to be used")
+        return self
 
     def __setattr__(self, k, v):
         object.__setattr__(self, k, v)
@@ -189,6 +197,7 @@ def main():
     out = []
     stack = []
     last_exc = None
+    last_session = None
     for ev in script["events"]:
         k = ev[0]
         try:
@@ -229,6 +238,7 @@ def main():
                         r = ["ok"] if e is exc else ["raised", type(e).__name__]
             elif k == "goc":
                 last_exc = None
+                last_session = None
                 try:
                     ns = {}
                     exec("from pyspark.sql import SparkSession as _S", ns)
@@ -238,6 +248,7 @@ def main():
                     else:
                         try:
                             s = S.builder.getOrCreate()
+                            last_session = s
                             r = ["session", session_engine(s), conn_id(getattr(s, "_connection", None)),
                                  type(getattr(s, "input_dialect", None)).__name__.lower()]
                         except BaseException as e:  # noqa
@@ -247,6 +258,31 @@ def main():
                     r = exc_class(e)
             elif k == "imp":
                 r = do_import(ev[1], ev[2])
+            elif k == "dial":
+                if last_session is None:
+                    r = ["dial", None]
+                else:
+                    r = ["dial", [type(getattr(last_session, a, None)).__name__.lower()
+                                  for a in ("input_dialect", "output_dialect", "execution_dialect")]]
+            elif k == "bconf":
+                try:
+                    ns = {}
+                    exec("from pyspark.sql import SparkSession as _S", ns)
+                    S = ns["_S"]
+                    if getattr(S, "__module__", "").startswith("pyspark."):
+                        r = ["ok"]                       # the real PySpark's builder is left alone
+                    else:
+                        try:
+                            if ev[1] == "key":
+                                for kk, vv in ev[2].items():
+                                    S.builder.config(kk, vv)
+                            else:
+                                S.builder.config(map=dict(ev[2]))
+                            r = ["ok"]
+                        except BaseException as e:  # noqa
+                            r = ["raised", type(e).__name__]
+                except BaseException:  # noqa
+                    r = ["ok"]                           # pyspark.sql not importable: nothing to configure
             elif k == "loadf":
                 importlib.import_module(f"sqlframe.{ev[1]}.functions")
                 r = ["ok"]
